@@ -269,7 +269,7 @@ def evaluate(ctx, case):
         bt = ctx.build_multi(scs, san=False, tsan=True) if n > 1 else ctx.build(scs[0], san=False, tsan=True)
         if not bt.ok:
             return [], {}
-        r = common.run_one(bt.exe, case.plan.text(), timeout=120)
+        r = common.run_one(bt.exe, case.plan.text(), timeout=ctx.run_timeout)
         if 'ThreadSanitizer' in r.stderr:
             # log order is not deterministic in this mode: give the gate a constant log
             r.raw = []
@@ -279,7 +279,7 @@ def evaluate(ctx, case):
     b = ctx.build_multi(scs) if n > 1 else ctx.build(scs[0])
     if not b.ok:
         return [], {}
-    r = common.run_one(b.exe, case.plan.text(), timeout=120)
+    r = common.run_one(b.exe, case.plan.text(), timeout=ctx.run_timeout)
     viols, runs = judge(ctx, b, case.plan, r)
     return [v for v in viols if v.cls in CLASSES], runs
 
